@@ -73,7 +73,14 @@ def parse(grid_str, mode=MODE_ZINC, charset='utf-8', single=True):
         if isinstance(grid_data, dict):
             grid_data = [grid_data]
     else:
-        grid_data = GRID_SEP.split(TRAILING_NL_RE.sub('\n', grid_str))
+        # Line ends may be CRLF (a raw CR cannot occur anywhere else: in values
+        # it is always escaped), the last line end may be missing, and there
+        # may be no grid at all.
+        grid_str = TRAILING_NL_RE.sub('', grid_str.replace('\r\n', '\n'))
+        if grid_str:
+            grid_data = GRID_SEP.split(grid_str + '\n')
+        else:
+            grid_data = []
 
     grids = list(map(_parse, grid_data))
     if single:
